@@ -305,5 +305,57 @@ FAMILIES.append(
            required_labels=["container=lf_full", "verdict-depends-on-selection", "opts=head", "opts=tail"]))
 
 
+# ---------------------------------------------------------------------- polars_unseeded family
+
+
+@st.composite
+def strat_polars_unseeded(draw):
+    n = draw(st.integers(2, 6))
+    return {"values": [draw(st.sampled_from([-3, -2, -1, 1, 2, 3])) for _ in range(n)], "sample": draw(st.integers(0, n)),
+            "container": draw(st.sampled_from(["df", "df", "lf"])), "three_checks": draw(st.booleans())}
+
+
+def eval_polars_unseeded(case):
+    """sample=k without a random_state on polars: whichever rows are drawn, ONE selection is validated.  Every row fails
+    exactly one of two complementary checks (> 0, < 0), so a lazy run must report exactly k failing rows - a selection that
+    is drawn again for every check reports any number between 0 and 2k."""
+    import polars as pl
+    import pandera.polars as pap
+
+    ev = Eval()
+    vals, k = case["values"], case["sample"]
+    checks = [pap.Check.gt(0), pap.Check.lt(0)] + ([pap.Check.ne(0)] if case["three_checks"] else [])
+    schema = pap.DataFrameSchema({"a": pap.Column(pl.Int64, checks)})
+    frame = pl.DataFrame({"a": vals})
+    if case["container"] == "lf":
+        frame = frame.lazy()
+    ev.labels += ["container=" + case["container"], "sample=" + ("0" if k == 0 else "all" if k == len(vals) else "some")]
+    ev.nontrivial = 0 < k < len(vals) and len({v > 0 for v in vals}) == 2
+    from pandera.config import ValidationDepth, config_context
+
+    with config_context(validation_depth=ValidationDepth.SCHEMA_AND_DATA):
+        o = fp.outcome(lambda: schema.validate(frame, lazy=True, sample=k))
+    if o["kind"] in ("internal", "usage"):
+        ev.add(f"internal-exception:{o.get('exc_type')}@{o.get('where')}", {"msg": o.get("msg", "")[:200], "sample": k})
+        return ev
+    if k == 0:
+        if o["kind"] != "ok":
+            ev.add("empty-selection-rejected", {"reasons": o.get("reasons")})
+        return ev
+    if o["kind"] != "SchemaErrors":
+        ev.add("selection-with-failing-rows-accepted", {"sample": k, "values": vals})
+        return ev
+    fc = o["exc"].failure_cases
+    got = fc.filter(pl.col("check").is_in(["greater_than(0)", "less_than(0)"])).height
+    if got != k:
+        ev.add("unseeded-sample-not-one-selection", {"sample": k, "failing_rows_reported": got, "values": vals})
+    return ev
+
+
+FAMILIES.append(
+    Family("polars_unseeded", eval_polars_unseeded, strategy=strat_polars_unseeded, n_quick=150, n_thorough=1000, shards_quick=2,
+           shards_thorough=4, required_labels=["container=lf", "sample=some", "sample=all"]))
+
+
 def selftest():
     refmodel.selftest()
